@@ -7,6 +7,7 @@
 
 mod driver;
 mod e1;
+mod e2;
 mod formats;
 mod host;
 mod mach;
@@ -134,6 +135,8 @@ fn real_main() -> i32 {
         "C01" => c01,
         "C02" => c02,
         "C03" => c03,
+        "C04" => c04,
+        "C05" => c05,
         "C06" => c06,
         "C17" => c17,
         "C20" => c20,
